@@ -27,3 +27,12 @@ claim("C08",
       "All enumerated exhaustively over operand variants, orderings and CFG paths. Reflexivity/symmetry/transitivity over values are not decided.",
       "Trusted: rustc MIR; spec tables transcribed in rules/c08.py; std f64/str comparison semantics; C06 (no NaN) for totality of partial_cmp.",
       "DESIGN.md §2 C08")
+claim("C17",
+      "MIR finite-domain decision tables (per popped Ordering, concrete cursors) of the sort/min/max/set-walk handlers",
+      "Decides one structural necessary condition of C17, not the contracts themselves: (R1) the tie-break and cursor-advance tables of the "
+      "merge step (left run on {Less,Equal}), the quick partition (before pivot on {Less} only), minArray/maxArray (replace on strict "
+      "Greater/Less only, so the first extremal element wins) and the setInter/setUnion/setDiff walks ((advance a, advance b, emit) per ordering), "
+      "on every CFG path. These branches sit behind the 30-element threshold and duplicate keys the UI tests do not reach. Permutation, "
+      "orderedness and set algebra over values are value-level and not decided.",
+      "Trusted: rustc MIR; the contract tables in rules/c17.py; pairs with C08 (comparison) and C10 (key loops).",
+      "DESIGN.md §2 C17")
